@@ -30,7 +30,7 @@ if __name__ == '__main__':
         for r in ex.map(work, chunks):
             sites |= set(tuple(x) for x in r)
     sites = sorted(sites)
-    json.dump({"comment": "failing (scenario, direction, function where the first thread was pre-empted, violation kind, exception classes) of the C14 scan on the unchanged tree at the commit of this file; see sim/props/c14.py", "sites": sites},
+    json.dump({"comment": "failing (scenario, direction, semantic phase of the pre-empted first thread = file-system calls made so far | lock kinds held, violation kind, exception classes) of the C14 scan on the unchanged tree at the commit of this file; see sim/props/c14.py", "sites": sites},
               open('/verif/findings/C14-known-sites.json', 'w'), indent=1)
     print(len(sites), 'sites')
     for s in sites:
